@@ -375,11 +375,12 @@ Theorem C03_vol_create_keeps_wf_needs_valid_utf16 :
     Wf.wf_issues (wf_fold upper_ascii) im' = [Wf.WDupLong 0].
 Proof. exact vol_create_keeps_wf_needs_valid_utf16. Qed.
 
-(* ---- rename of a file inside the root, EVERY outcome: the volume stays well formed.  Premises of C01_vol_rename_decodes
-   (attrs_sane, bytes_ok), plus: the source is not stored under a dot short name, and [dst_only_source] - the library's
-   matching resolves [dst] to no entry other than the source.  The latter holds whenever the existence check answers Fresh
-   (C03_dst_only_source_fresh); when it answers "the source itself" (a respelling of the source's own long name or alias)
-   the code does not look further, and the premise is NECESSARY: C03_vol_rename_respell_dup_refuted. *)
+(* ---- rename of a file inside the root, EVERY outcome: the volume stays well formed - no premise about the destination
+   name.  Premises of C01_vol_rename_decodes (attrs_sane, bytes_ok), and: the source is not stored under a dot short name
+   (a root directory has none; the decoder would not follow the chain of such an entry).  A successful rename means the
+   existence check answered Fresh, or "the source itself" AND the scan of the whole directory added by 7e5011a found no
+   other entry matching [dst].  Without that scan the theorem is FALSE - the attempt to prove it produced the failing
+   input D27, reproduced on the real library (C03_vol_rename_respell_ex). *)
 Theorem C03_vol_rename_keeps_wf_closed : forall fold upper oem im src dst r im',
   fold_agrees upper fold ->
   fixed_root_geom (parse_geom im) -> Wf.wf_issues fold im = [] ->
@@ -388,50 +389,47 @@ Theorem C03_vol_rename_keeps_wf_closed : forall fold upper oem im src dst r im',
   str_valid dst = true ->
   (forall ev, root_lookup upper oem im src = Ok ev ->
      list_eqb (Lfn.ev_raw_name ev) DOT || list_eqb (Lfn.ev_raw_name ev) DOTDOT = false) ->
-  (forall ev l, root_lookup upper oem im src = Ok ev ->
-     dir_entries oem (root_region_slots (parse_geom im) im) = Ok l ->
-     forall ev2, In ev2 l -> matches upper oem dst ev2 = true -> ev2 = ev) ->
   vol_rename_in_root upper oem im src dst = Some (r, im') ->
   Wf.wf_issues fold im' = [] /\
   Forall (fun l => utf16_okb l = true) (map e_lfn (map node_entry (v_root (abs im')))).
 Proof. exact vol_rename_keeps_wf_closed. Qed.
-Theorem C03_dst_only_source_fresh : forall upper oem im src dst a,
-  check_for_existence upper oem (root_region_slots (parse_geom im) im) dst None = Ok (Fresh a) ->
-  forall ev l, root_lookup upper oem im src = Ok ev ->
-    dir_entries oem (root_region_slots (parse_geom im) im) = Ok l ->
-    forall ev2, In ev2 l -> matches upper oem dst ev2 = true -> ev2 = ev.
-Proof. exact dst_only_source_fresh. Qed.
-(* the refutation, reachable through the library's own calls and reproduced on the real library (reported finding): with
-   U+00DF -> "SS": create "ab", create "\u{DF}~1" (alias _~1~1), remove "ab", create "s s" (first fit: IN FRONT of "\u{DF}~1";
-   alias SS~1) - no issue, every premise but the last holds -; rename "s s" -> "ss~1" succeeds: the first match of "ss~1" is
-   the source (through its alias), the entry behind it matches through its long name and is never looked at.  Two long
-   names with the folding "SS~1". *)
-Theorem C03_vol_rename_respell_dup_refuted :
-  exists im src dst im',
-    fixed_root_geom (parse_geom im) /\ Wf.wf_issues (wf_fold upper_sz) im = [] /\
-    Forall (fun l => utf16_okb l = true) (map e_lfn (map node_entry (v_root (abs im)))) /\
-    Forall attrs_sane (root_region_slots (parse_geom im) im) /\ Forall bytes_ok (root_region_slots (parse_geom im) im) /\
-    str_valid dst = true /\
-    (forall ev, root_lookup upper_sz oem_decode_lossy im src = Ok ev ->
-       list_eqb (Lfn.ev_raw_name ev) DOT || list_eqb (Lfn.ev_raw_name ev) DOTDOT = false) /\
-    map e_lfn (map node_entry (v_root (abs im))) = [[115; 32; 115]; [223; 126; 49]] /\
-    vol_rename_in_root upper_sz oem_decode_lossy im src dst = Some (Ok tt, im') /\
-    map e_lfn (map node_entry (v_root (abs im'))) = [[223; 126; 49]; [115; 115; 126; 49]] /\
-    Wf.wf_issues (wf_fold upper_sz) im' = [Wf.WDupLong 0] /\
-    ~ (forall ev l, root_lookup upper_sz oem_decode_lossy im src = Ok ev ->
-         dir_entries oem_decode_lossy (root_region_slots (parse_geom im) im) = Ok l ->
-         forall ev2, In ev2 l -> matches upper_sz oem_decode_lossy dst ev2 = true -> ev2 = ev).
-Proof. exact vol_rename_respell_dup_refuted. Qed.
-(* the premises of the rename theorem on the same volume for a destination nobody matches: "s s" -> "t" *)
-Example C03_vol_rename_keeps_wf_closed_ex :
-  (exists a, check_for_existence upper_sz oem_decode_lossy (root_region_slots (parse_geom ex_respell_im) ex_respell_im)
-               [116] None = Ok (Fresh a)) /\
+Theorem C03_vol_rename_keeps_wf_judge : forall upper oem im src dst r im',
+  fixed_root_geom (parse_geom im) -> Wf.wf_issues (wf_fold upper) im = [] ->
+  Forall (fun l => utf16_okb l = true) (map e_lfn (map node_entry (v_root (abs im)))) ->
+  Forall attrs_sane (root_region_slots (parse_geom im) im) -> Forall bytes_ok (root_region_slots (parse_geom im) im) ->
+  str_valid dst = true ->
+  (forall ev, root_lookup upper oem im src = Ok ev ->
+     list_eqb (Lfn.ev_raw_name ev) DOT || list_eqb (Lfn.ev_raw_name ev) DOTDOT = false) ->
+  vol_rename_in_root upper oem im src dst = Some (r, im') ->
+  Wf.wf_issues (wf_fold upper) im' = [] /\
+  Forall (fun l => utf16_okb l = true) (map e_lfn (map node_entry (v_root (abs im')))).
+Proof. exact vol_rename_keeps_wf_judge. Qed.
+(* the D27 situation (U+00DF -> "SS"): create "ab", create "\u{DF}~1" (alias _~1~1), remove "ab", create "s s" (first fit: IN
+   FRONT of "\u{DF}~1"; alias SS~1): no issue, every premise holds.  rename "s s" -> "ss~1": the first match of "ss~1" is
+   the source (through its alias), the entry behind it matches through its long name: AlreadyExists, every byte as before
+   (before 7e5011a: Ok, and two long names with the folding "SS~1").  A destination nobody matches ("t") renames. *)
+Example C03_vol_rename_respell_ex :
+  (fixed_root_geom (parse_geom ex_respell_im) /\ Wf.wf_issues (wf_fold upper_sz) ex_respell_im = [] /\
+   Forall (fun l => utf16_okb l = true) (map e_lfn (map node_entry (v_root (abs ex_respell_im)))) /\
+   Forall attrs_sane (root_region_slots (parse_geom ex_respell_im) ex_respell_im) /\
+   Forall bytes_ok (root_region_slots (parse_geom ex_respell_im) ex_respell_im) /\
+   (forall ev, root_lookup upper_sz oem_decode_lossy ex_respell_im [115; 32; 115] = Ok ev ->
+      list_eqb (Lfn.ev_raw_name ev) DOT || list_eqb (Lfn.ev_raw_name ev) DOTDOT = false) /\
+   map e_lfn (map node_entry (v_root (abs ex_respell_im))) = [[115; 32; 115]; [223; 126; 49]]) /\
+  map e_sfn (map node_entry (v_root (abs ex_respell_im))) =
+    [[83; 83; 126; 49; 32; 32; 32; 32; 32; 32; 32]; [95; 126; 49; 126; 49; 32; 32; 32; 32; 32; 32]] /\
+  wf_fold upper_sz [223; 126; 49] = wf_fold upper_sz [115; 115; 126; 49] /\
+  match vol_rename_in_root upper_sz oem_decode_lossy ex_respell_im [115; 32; 115] [115; 115; 126; 49] with
+  | Some (r, im') => r = Err EAlreadyExists /\
+                     img_read im' 1536 512 = img_read ex_respell_im 1536 512
+  | None => False
+  end /\
   match vol_rename_in_root upper_sz oem_decode_lossy ex_respell_im [115; 32; 115] [116] with
   | Some (r, im') => r = Ok tt /\ map e_lfn (map node_entry (v_root (abs im'))) = [[223; 126; 49]; [116]] /\
                      Wf.wf_issues (wf_fold upper_sz) im' = []
   | None => False
   end.
-Proof. split; [eexists; vm_compute; reflexivity|]. vm_compute. repeat split. Qed.
+Proof. split; [exact ex_respell_premises|]. vm_compute. repeat split. Qed.
 
 Print Assumptions C03_write_frame.
 Print Assumptions C03_write_effect.
@@ -454,5 +452,4 @@ Print Assumptions C03_vol_create_keeps_wf_judge.
 Print Assumptions C03_vol_create_many_keeps_wf_closed.
 Print Assumptions C03_vol_create_keeps_wf_needs_valid_utf16.
 Print Assumptions C03_vol_rename_keeps_wf_closed.
-Print Assumptions C03_dst_only_source_fresh.
-Print Assumptions C03_vol_rename_respell_dup_refuted.
+Print Assumptions C03_vol_rename_keeps_wf_judge.
